@@ -115,14 +115,38 @@ def jIter (d : PyJ) : Except LErr (List PyJ) :=
 def jIsDict : PyJ → Bool | .dict _ => true | _ => false
 def jIsList : PyJ → Bool | .list _ => true | _ => false
 
-/-- `int(x)`: an `int` is itself, a `str` is parsed (`ValueError`); (`float`, `bool`: not modelled); else `TypeError` -/
+/-- Python white space (`str.isspace`), which `int(text)` strips on both sides -/
+def pyIsSpace (c : Char) : Bool :=
+  let v := c.val
+  (9 ≤ v && v ≤ 13) || (28 ≤ v && v ≤ 32) || v == 0x85 || v == 0xa0 || v == 0x1680 || (0x2000 ≤ v && v ≤ 0x200a) ||
+  v == 0x2028 || v == 0x2029 || v == 0x202f || v == 0x205f || v == 0x3000
+
+/-- a text that CPython's `int` MAY accept: after stripping white space on both sides and one sign (`+` / `-`), a
+non-empty run of decimal digits — ASCII, or any character above 127 (a coarse stand-in for the Unicode class Nd) —
+and underscores.  (Conservative: `1__0` is in the class although `int` refuses it; plain garbage such as `abc`,
+`5.0`, `0x10`, `--5`, the empty text is not.) -/
+def pyIntLenient (t : String) : Bool :=
+  let cs := ((t.toList.dropWhile pyIsSpace).reverse.dropWhile pyIsSpace).reverse
+  let cs := match cs with | '+' :: r => r | '-' :: r => r | r => r
+  !cs.isEmpty && cs.all (fun c => c.isDigit || c == '_' || c.val > 127)
+
+/-- `int(x)`: an `int` is itself; a `str` that `String.toInt?` reads (ASCII digits with single underscores between them,
+optional `-`) is that number, as in Python; a `str` it refuses is a `ValueError` only when CPython's `int` refuses it
+too — a text with surrounding white space, a leading `+` or non-ASCII digits (`pyIntLenient`) is **not modelled**;
+(`float`, `bool`: not modelled); else `TypeError` -/
 def jInt (x : PyJ) : Except LErr Int :=
   match x with
   | .int i => .ok i
-  | .str t => match t.toInt? with | some i => .ok i | none => .error (.py .valueError)
+  | .str t =>
+    match t.toInt? with
+    | some i => .ok i
+    | none => if pyIntLenient t then .error .unmodelled else .error (.py .valueError)
   | .num _ => .error .unmodelled
   | .bool _ => .error .unmodelled
   | _ => .error .typeError
+
+theorem jInt_str_some (t : String) (i : Int) (h : t.toInt? = some i) : jInt (.str t) = .ok i := by
+  simp only [jInt, h]
 
 /-- `float(x)` of a float: its canonical text; (`int`, `str`, `bool`: not modelled); else `TypeError` -/
 def jFloat (x : PyJ) : Except LErr String :=
@@ -182,15 +206,20 @@ def allocT (s : H) (o : PyAtt) : H × TRef :=
 classes; a name that is only an association class counts as absent here.) -/
 def nsHasAsset (fac : Factory) (name : String) : Bool := (fac.L.findAsset name).isSome
 
-/-- `getattr(ns, cls)(name = n)`: `AttributeError` when there is no such class, `ValidationError` when the name
-is not a string; a new asset object with only `name` set (no `id`, no `extras`, no explicit defense) -/
+/-- `getattr(ns, cls)(name = n)`: `AttributeError` when there is no such class; a new asset object with only `name`
+set (no `id`, no `extras`, no explicit defense).  `name` is NOT a declared property of the generated classes:
+python_jsonschema_objects keeps any value but `None` as an additional property (`T(name=7).name` is the literal `7`;
+checked on the real library) — a name that is not a `str` has no place in `PyAsset.name : Option String`: **not
+modelled**; `name=None` sets nothing (`T(name=None)` is `T()`: `hasattr(obj, 'name')` is false, also checked), so
+`add_asset` gives the object its default name.  The constructor never raises `ValidationError` for a name. -/
 def nsNewAsset (fac : Factory) (s : H) (cls name : PyJ) : Except LErr (H × ARef) :=
   match cls with
   | .str c =>
     if !nsHasAsset fac c then .error (.py .attributeError) else
     match name with
     | .str n => .ok (allocA s { type := c, name := some n })
-    | _ => .error .validation
+    | .null => .ok (allocA s { type := c })
+    | _ => .error .unmodelled
   | _ => .error .typeError
 
 /-- `setattr(asset, defense_name, value)` with a float: `ValidationError` when the class has that defense and the
